@@ -99,6 +99,83 @@ def update_agents_program(fn: ast.FunctionDef) -> List[Tuple[bool, str]]:
     return out
 
 
+_PIPE_WORDS = ("reward_function", "update_agents", "advance_timestep", "apply_agent_actions", "get_sim_state", "pre_timestep",
+               "store_action", "describe_state", "update_reward", "save_reward_to_history", "current_reward", "total_reward",
+               "self.simulation", ".step(")
+
+
+def step_pipeline(fn: ast.FunctionDef, game: str, returns_reward: bool) -> List[Tuple[bool, str]]:
+    """A `step` method as the sequence of reward-relevant calls it is (Model/Reward.lean `POp`), in source order; `game` is the
+    expression that denotes the PrimaiteGame (`self` / `self.game`). Strict: a statement that mentions the simulation or the rewards
+    and is not one of the recognised calls raises."""
+    out: List[Tuple[bool, str]] = []
+    reward_var = [None]
+
+    def q(x: str) -> str:
+        return '"' + x + '"'
+
+    def one(st: ast.stmt, guarded: bool):
+        src = ast.unparse(st)
+        if isinstance(st, ast.Expr) and isinstance(st.value, ast.Constant):
+            return
+        if isinstance(st, ast.Expr) and isinstance(st.value, ast.Call) and ast.unparse(st.value.func).startswith("_LOGGER."):
+            return
+        if src == "self.agent.store_action(action)" or (
+                isinstance(st, ast.For) and ast.unparse(st.iter) == "actions.items()" and len(st.body) == 1
+                and ast.unparse(st.body[0]) == f"self.agents[{ast.unparse(st.target.elts[0])}].store_action({ast.unparse(st.target.elts[1])})"):
+            out.append((guarded, ".storeAction"))
+        elif src == f"{game}.pre_timestep()":
+            out.append((guarded, ".preTimestep"))
+        elif src == f"{game}.apply_agent_actions()":
+            out.append((guarded, ".applyActions"))
+        elif src == f"{game}.advance_timestep()":
+            out.append((guarded, ".advance"))
+        elif isinstance(st, ast.Assign) and len(st.targets) == 1 and isinstance(st.targets[0], ast.Name) \
+                and ast.unparse(st.value) == f"{game}.get_sim_state()":
+            out.append((guarded, f"(.getState {q(st.targets[0].id)})"))
+        elif isinstance(st, ast.Expr) and isinstance(st.value, ast.Call) and ast.unparse(st.value.func) == f"{game}.update_agents" \
+                and len(st.value.args) + len(st.value.keywords) == 1 \
+                and isinstance((st.value.args + [k.value for k in st.value.keywords if k.arg == "state"])[0], ast.Name):
+            out.append((guarded, f"(.updateAgents {q((st.value.args + [k.value for k in st.value.keywords])[0].id)})"))
+        elif isinstance(st, ast.For) and ast.unparse(st.iter) == "self.agents.values()" and len(st.body) == 1 and not st.orelse \
+                and isinstance(st.body[0], ast.Expr) and isinstance(st.body[0].value, ast.Call) \
+                and ast.unparse(st.body[0].value.func) == f"{ast.unparse(st.target)}.update_observation" \
+                and len(st.body[0].value.keywords) == 1 and isinstance(st.body[0].value.keywords[0].value, ast.Name):
+            out.append((guarded, f"(.updateObservations {q(st.body[0].value.keywords[0].value.id)})"))
+        elif isinstance(st, ast.If) and not guarded and ast.unparse(st.test) == "self.step_counter == 0" and not st.orelse and game == "self":
+            for x in st.body:
+                one(x, True)
+        elif returns_reward and isinstance(st, ast.Assign) and len(st.targets) == 1 and isinstance(st.targets[0], ast.Name) \
+                and ast.unparse(st.value) in (
+                    "self.agent.reward_function.current_reward", "self.agent.reward_function.total_reward",
+                    "{name: agent.reward_function.current_reward for name, agent in self.agents.items()}",
+                    "{name: agent.reward_function.total_reward for name, agent in self.agents.items()}"):
+            if reward_var[0] is not None or guarded:
+                raise ValueError(f"{fn.name}: the returned reward is assigned twice / conditionally")
+            reward_var[0] = st.targets[0].id
+            out.append((guarded, f"(.readReward {'true' if 'total_reward' in ast.unparse(st.value) else 'false'})"))
+        elif isinstance(st, ast.Return):
+            if returns_reward:
+                if not (isinstance(st.value, ast.Tuple) and len(st.value.elts) == 5 and isinstance(st.value.elts[1], ast.Name)
+                        and st.value.elts[1].id == reward_var[0]):
+                    raise ValueError(f"{fn.name}: `{src}` does not return the reward variable `{reward_var[0]}` in second place")
+            elif st.value is not None:
+                raise ValueError(f"{fn.name}: `{src}`")
+        elif isinstance(st, ast.If) and all(w not in ast.unparse(st.test) for w in _PIPE_WORDS) \
+                and all(w not in ast.unparse(x) for x in st.body + st.orelse for w in _PIPE_WORDS if w not in ("self.simulation",)) \
+                and "_write_step_metadata_json" in src and len(st.body) == 1 and not st.orelse:
+            out.append((guarded, ".other"))      # `if self.game.save_step_metadata: self._write_step_metadata_json(...)`: a file is written
+        elif any(w in src for w in _PIPE_WORDS) and not (isinstance(st, ast.Assign) and src.startswith("step = ") and src.endswith(".step_counter")):
+            raise ValueError(f"{fn.name}: unrecognised reward-relevant statement `{src[:90]}`")
+        else:
+            out.append((guarded, ".other"))
+    for st in fn.body:
+        one(st, False)
+    if returns_reward and reward_var[0] is None:
+        raise ValueError(f"{fn.name}: no returned reward found")
+    return out
+
+
 def shape_report() -> List[Tuple[str, bool, str]]:
     """(function, text-identical to the transcribed shape?, normalised source now) for the functions whose control flow the
     models transcribe by hand (deliberately blunt: any edit of these functions is reported)."""
@@ -150,6 +227,16 @@ def emit() -> str:
                      "self.step_counter > 0`?, operation on the agent looked up by `self.agents[agent_name]`) -/\n"
                      "def updateAgentsProgram : List (Bool × AOp) :=\n  ["
                      + ", ".join(f"({'true' if g else 'false'}, .{o})" for g, o in prog) + "]")
+    # the three step pipelines: order of tick / snapshot / update_agents / returned reward
+    pipes = [("PrimaiteGame.step", False, step_pipeline(find_method(class_def(parse("game/game.py"), "PrimaiteGame"), "step"), "self", False)),
+             ("PrimaiteGymEnv.step", True,
+              step_pipeline(find_method(class_def(parse("session/environment.py"), "PrimaiteGymEnv"), "step"), "self.game", True)),
+             ("PrimaiteRayMARLEnv.step", True,
+              step_pipeline(find_method(class_def(parse("session/ray_envs.py"), "PrimaiteRayMARLEnv"), "step"), "self.game", True))]
+    calc_defs.append("/-- the `step` methods as sequences of reward-relevant calls (name, returns the reward?, [(under `if self.step_counter == 0`?, "
+                     "call)]), in source order -/\ndef stepPipelines : List (String × Bool × List (Bool × POp)) :=\n  ["
+                     + ",\n   ".join(f"({lean_str(n)}, {'true' if r else 'false'}, [" + ", ".join(f"({'true' if g else 'false'}, {o})" for g, o in p) + "])"
+                                      for n, r, p in pipes) + "]")
     # sticky defaults
     sticky = []
     for cname, _disc, cls in classes:
